@@ -133,6 +133,15 @@ impl RetransEntry {
 //@+     assert(delay * jitter_rand as u64 * 25 <= 0x10_0000_0000 * 255 * 25) by (nonlinear_arith) requires jitter_rand <= 255, 0 <= delay <= 0x10_0000_0000;
 //@+ }
 
+//@fn RetransEntry::retransmission_timeout_ms ret=r
+//@+ ensures r as int == ladder(active_interval_ms as int, idle_interval_ms as int, active_threshold_ms as int, active_only, 5),
+//@+     r < 0x100_0000_0000,   // the whole ladder stays far below u64::MAX (contract assumed by the Kani harness of Session::rx_timeout_ms)
+//@loop "for counter in 0..MRP_MAX_TRANSMISSIONS"
+//@+ invariant timeout as int == ladder(active_interval_ms as int, idle_interval_ms as int, active_threshold_ms as int, active_only, counter as nat),
+//@+     timeout as int <= counter * 0x20_0000_0000,
+//@at before "timeout += Self::backoff_ms(base_interval_ms, counter, MRP_JITTER_RAND_MAX);"
+//@+ proof { lemma_backoff_small(base_interval_ms as int, counter as int); reveal_with_fuel(ladder, 2); }
+
 //@fn RetransEntry::delay_ms_counter ret=r
 //@+ requires counter <= 6,
 //@+ ensures r as int == backoff(self.base_delay_interval_ms as int, counter as int, jitter_rand as int),
@@ -140,6 +149,29 @@ impl RetransEntry {
 //@fn RetransEntry::delay_ms ret=r
 //@+ requires self.counter <= 6,
 //@+ ensures r as int == backoff(self.base_delay_interval_ms as int, self.counter as int, jitter_rand as int),
+}
+
+/// The sender's whole retry ladder with maximum jitter: attempt `c` waits `backoff(base_c, c, 255)`, where the base is the
+/// active interval while the time spent so far is below the active threshold (or always, if `active_only`), else the idle one.
+pub open spec fn ladder(active: int, idle: int, threshold: int, active_only: bool, n: nat) -> int
+    decreases n,
+{
+    if n == 0 { 0 } else {
+        let t = ladder(active, idle, threshold, active_only, (n - 1) as nat);
+        let base = if active_only || t < threshold { active } else { idle };
+        t + backoff(base, n - 1, 255)
+    }
+}
+
+proof fn lemma_backoff_small(base: int, c: int)
+    requires 0 <= base <= 0xffff_ffff, 0 <= c <= 5,
+    ensures 0 <= backoff(base, c, 255) <= 0x20_0000_0000,
+{
+    let d0 = base * 11 / 10;
+    let k = (if c > 1 { c - 1 } else { 0 }) as nat;
+    lemma_grow_small(d0, k);
+    let d = grow(d0, k);
+    assert((d * 255 * 25) / 25500int <= d && (d * 255 * 25) / 25500int >= 0) by (nonlinear_arith) requires d >= 0;
 }
 
 /// within the horizon (at most 5 growth steps) the delay stays below 2^36: no u64 overflow anywhere in backoff_ms
